@@ -290,8 +290,8 @@ CaseResult run_mapped(const RunCtx &ctx, TapeReader &t, unsigned size_hint) {
 }
 
 // X(Epsilon, EpsilonRecursive, Floating): the slope type changes sizeof(Segment), hence the layout and alignment of the file header
-#define VF_MAPPED_CONFIGS(X) X(1, 0, float) X(4, 4, double) X(8, 4, float) X(128, 0, double) X(1, 4, double) X(128, 4, float)
-constexpr int VF_MAPPED_NCFG = 6;
+#define VF_MAPPED_CONFIGS(X) X(1, 0, float) X(4, 4, double) X(8, 4, float) X(128, 0, double) X(1, 4, double) X(128, 4, float) X(1, 64, float)
+constexpr int VF_MAPPED_NCFG = 7; // the last one routes by binary search (EpsilonRecursive above the linear-scan threshold of every key width)
 #define VF_MAPPED_FN(E, ER, F) &run_mapped<VF_KEY, E, ER, F>,
 
 } // namespace vf
